@@ -459,6 +459,15 @@ var namedReflectTypes = map[string]reflect.Type{}
 func (in *Interp) callNative(fr *frame, fnv any, sig *types.Signature, args []Value) (res Value, handled bool) {
 	rf := reflect.ValueOf(fnv)
 	rt := rf.Type()
+	if in.concretizeInts {
+		in.concretizeInts = false
+		args = append([]Value(nil), args...)
+		for i, a := range args {
+			if x, ok := a.(SInt); ok && x.T != nil {
+				args[i] = SInt{W: x.W, V: in.ex.Concretize(x.T)}
+			}
+		}
+	}
 	uc := &unmarshalCtx{in: in, memo: map[Ptr]reflect.Value{}}
 	nargs := make([]reflect.Value, len(args))
 	if rt.IsVariadic() {
